@@ -42,7 +42,7 @@ run "3b73fba finalizeMap sorted (D10)" C09 -- 3b73fba
 run "3fd9965 key assertions (D4)" C08 -- 3fd9965
 run "7b038d5 interpolation depth guard (D5)" C08 -- 7b038d5
 run "7a030ac parent cycle (D6)" C08 -- 7a030ac
-run "3366fce yaml self alias (D8)" C08 -- 3366fce
+run "3366fce yaml self alias (D8) [with aadbaa0 undone first]" C08 -- aadbaa0 3366fce
 run "28dbd0c -P pops parent (D2)" C03 -- 28dbd0c
 run "2b7aed6 number normalisation (D3)" C04 C05 -- 2b7aed6
 run "48b586a bkli multiset (D12)" C16 -- 48b586a
